@@ -1,18 +1,25 @@
 #!/usr/bin/env python3
-"""Apply each seeded change under /verif/seeded/<id>/patch.diff to /repo, run the check of the
-property it breaks (and optionally others), record whether a VIOLATION was raised, revert.
-Usage: tools/run_seeded.py [--tier quick|thorough] [--only <id>...] [--also C01,C05]
-Writes /verif/seeded/RESULTS.md. Never leaves /repo modified."""
-import json, os, subprocess, sys, time
+"""Run the checks against the seeded changes under /verif/seeded/<id>/patch.diff and record whether a
+VIOLATION was raised.  Two modes:
+  default        : apply each change to /repo itself, run the registered quick command, revert (the way the
+                   checks are meant to be used; one change at a time).
+  --jobs N       : N workers, each with its own scratch worktree of /repo under /tmp/seedrun/w<k>/repo and its own
+                   build directory (./check honours VERIF_REPO / VERIF_BUILD); same binaries' source, same seeds.
+                   Worktrees and build output are removed at the end.
+Usage: tools/run_seeded.py [--tier quick|thorough] [--jobs N] [--also C01,C05] [--only <id>...]
+Merges into /verif/seeded/results.json and rewrites /verif/seeded/RESULTS.md. Never leaves /repo modified."""
+import json, os, subprocess, sys, time, threading, queue, shutil
 
 ROOT = "/verif/seeded"
 tier = "quick"
 only = []
 also = []
+jobs = 0
 args = sys.argv[1:]
 while args:
     a = args.pop(0)
     if a == "--tier": tier = args.pop(0)
+    elif a == "--jobs": jobs = int(args.pop(0))
     elif a == "--only":
         only = args
         args = []
@@ -21,31 +28,66 @@ while args:
 def sh(cmd, **kw):
     return subprocess.run(cmd, shell=True, capture_output=True, text=True, **kw)
 
-assert sh("git -C /repo status --porcelain").stdout.strip() == "", "/repo has uncommitted changes"
+names = [d for d in sorted(os.listdir(ROOT)) if os.path.isdir(os.path.join(ROOT, d)) and (not only or d in only)]
 rows = []
-for d in sorted(os.listdir(ROOT)):
+lock = threading.Lock()
+
+def run_one(d, repo, env):
     p = os.path.join(ROOT, d)
-    if not os.path.isdir(p) or (only and d not in only):
-        continue
     meta = json.load(open(os.path.join(p, "meta.json")))
     props = meta["property"] if isinstance(meta["property"], list) else [meta["property"]]
-    r = sh(f"git -C /repo apply --whitespace=nowarn {p}/patch.diff")
+    r = sh(f"git -C {repo} apply --whitespace=nowarn {p}/patch.diff")
     if r.returncode != 0:
-        rows.append((d, props, "patch does not apply: " + r.stderr.strip()[:100], {}))
-        continue
+        return (d, props, "patch does not apply: " + r.stderr.strip()[:100], {})
     res = {}
     try:
         for c in props + [x for x in also if x not in props]:
             t0 = time.time()
-            rr = sh(f"cd /verif && VERIF_EVIDENCE_DIR=/tmp/seeded-ev ./check {c} {tier}")
+            rr = sh(f"cd /verif && {env} ./check {c} {tier}")
             viol = [l for l in rr.stdout.splitlines() if l.startswith("VIOLATION")]
             what = [l.strip() for l in rr.stdout.splitlines() if l.strip().startswith("what:")]
             res[c] = (rr.returncode, len(viol), what[0][:160] if what else "", round(time.time() - t0, 1))
     finally:
-        sh("git -C /repo checkout -- . && git -C /repo clean -fdq -- tests src")
-    rows.append((d, props, meta.get("summary", ""), res))
+        sh(f"git -C {repo} checkout -- . && git -C {repo} clean -fdq -- tests src")
     print(d, {k: v[:2] for k, v in res.items()}, flush=True)
-assert sh("git -C /repo status --porcelain").stdout.strip() == ""
+    return (d, props, meta.get("summary", ""), res)
+
+if jobs <= 0:
+    assert sh("git -C /repo status --porcelain").stdout.strip() == "", "/repo has uncommitted changes"
+    for d in names:
+        rows.append(run_one(d, "/repo", "VERIF_EVIDENCE_DIR=/tmp/seeded-ev"))
+    assert sh("git -C /repo status --porcelain").stdout.strip() == ""
+else:
+    q = queue.Queue()
+    for d in names:
+        q.put(d)
+    def worker(k):
+        base = f"/tmp/seedrun/w{k}"
+        os.makedirs(base, exist_ok=True)
+        if not os.path.isdir(base + "/repo"):
+            r = sh(f"git -C /repo worktree add --detach {base}/repo HEAD")
+            assert r.returncode == 0, r.stderr
+        else:
+            sh(f"cd {base}/repo && git checkout -q --detach $(git -C /repo rev-parse HEAD) && git checkout -- . && git clean -fdq")
+        if not os.path.isdir(base + "/build") and os.path.isdir(f"/verif/build/{'release' if tier == 'thorough' else 'quick'}"):
+            os.makedirs(base + "/build")
+            prof = 'release' if tier == 'thorough' else 'quick'
+            sh(f"cp -a /verif/build/{prof} {base}/build/{prof}")   # warm start: third-party crates are reused
+        env = f"VERIF_REPO={base}/repo VERIF_BUILD={base}/build VERIF_EVIDENCE_DIR={base}/ev VERIF_REPLAY_DIR={base}/replays"
+        while True:
+            try:
+                d = q.get_nowait()
+            except queue.Empty:
+                break
+            row = run_one(d, base + "/repo", env)
+            with lock:
+                rows.append(row)
+        sh(f"git -C /repo worktree remove --force {base}/repo")
+        shutil.rmtree(base, ignore_errors=True)
+    ts = [threading.Thread(target=worker, args=(k,)) for k in range(jobs)]
+    for t in ts: t.start()
+    for t in ts: t.join()
+    sh("git -C /repo worktree prune")
 # merge with earlier rows (seeded/results.json holds one row per change; RESULTS.md is rendered from it)
 store = os.path.join(ROOT, "results.json")
 allrows = json.load(open(store)) if os.path.exists(store) else {}
